@@ -59,6 +59,8 @@ func runC04(c *core.Ctx) {
 	c.Floor("map ranges inside encoders of the scope", nLoops, 8)
 	nSorts := checkSortComparators(c, "C04.canonical-map", encoders)
 	c.Floor("sort calls inside encoders of the scope", nSorts, 8)
+	nProd := checkEncoderLoopsProductive(c, "C04.count-matches-elements", encoders)
+	c.Floor("collecting/emitting loops inside encoders of the scope", nProd, 20)
 	nMakes, nWire := checkWireAllocs(c, "C04.bounded-alloc", decoders)
 	c.Note("decoders examined: %d functions, %d make() sites, %d sized by a wire integer", len(decoders), nMakes, nWire)
 	c.Floor("decoder functions in scope", len(decoders), 80)
